@@ -1,15 +1,1416 @@
-//! Engine `vacuum` — not built yet (stub).
+//! Engine `vacuum` (C13): histories with VACUUM at arbitrary points (and optional reopen) through the public API
+//! (`Database::create/open/execute/execute_batch/session/vacuum`) against `Model/Db.lean` + `Model/Vacuum.lean`.
+//! Case syntax: see `cfg/C13.py`.  The session / statement syntax is the one of engine `hist`; the parsing and
+//! canonicalisation code is a private copy (engine `hist` belongs to C03/C04 and changes independently).
 use super::{Case, Engine, Tier};
 use crate::rng::Rng;
+use axmosdb::runtime::QueryResult;
+use axmosdb::tcp::session::Session;
+use axmosdb::{DBConfig, DataType, Database};
+use std::collections::{BTreeMap, BTreeSet};
+use std::sync::atomic::{AtomicU64, Ordering};
 
 pub struct VacuumEngine;
 
-impl Engine for VacuumEngine {
-    fn gen_cases(&self, _rng: &mut Rng, _tier: Tier) -> Vec<Case> {
-        Vec::new()
+// ------------------------------------------------------------------------------------------------ case syntax
+
+#[derive(Clone, Debug, PartialEq)]
+enum Val {
+    Int(i64),
+    Null,
+    Text(String),
+}
+
+#[derive(Clone, Debug)]
+struct Col {
+    name: String,
+    ty: String, // big | int | text
+    not_null: bool,
+    unique: bool,
+}
+
+#[derive(Clone, Debug)]
+struct Table {
+    name: String,
+    cols: Vec<Col>,
+}
+
+#[derive(Clone, Debug)]
+struct Pred {
+    col: String,
+    op: String, // eq ne lt le gt ge
+    val: Val,
+}
+
+#[derive(Clone, Debug)]
+enum Stmt {
+    Sel { table: String, pred: Option<Pred> },
+    Ins { table: String, rows: Vec<Vec<Val>> },
+    Upd { table: String, col: String, add: bool, val: Val, pred: Option<Pred> },
+    Del { table: String, pred: Option<Pred> },
+}
+
+#[derive(Clone, Debug)]
+enum Op {
+    Begin(String),
+    Commit(String),
+    Rollback(String),
+    Drop(String),
+    Exec(String, Stmt),
+    Auto(Stmt),
+    Batch(Vec<Stmt>),
+    /// `vac`: Database::vacuum
+    Vac,
+    /// `vacchk`: SELECT * of every table, Database::vacuum, SELECT * of every table; the two must agree
+    VacChk,
+    /// `reopen`: every open session is dropped, the Database handle is dropped, Database::open
+    Reopen,
+    /// `db droptmp` / `s<i> droptmp`: DROP TABLE tmpzz (the table of setup token `tmp`; it is outside the model's static catalog)
+    DropTmp(Option<String>),
+}
+
+#[derive(Clone, Debug)]
+struct Setup {
+    tables: Vec<Table>,
+    rows: Vec<(String, Vec<Val>)>,
+    fresh: bool,
+    /// `tmp`: a table `tmpzz (k BIGINT)` with rows 1, 2 is created after the others
+    tmp: bool,
+}
+
+fn parse_val(s: &str) -> Option<Val> {
+    if s == "null" {
+        return Some(Val::Null);
     }
-    fn exec(&mut self, _line: &str) -> String {
-        "unimplemented".into()
+    if s.len() >= 2 && s.starts_with('\'') && s.ends_with('\'') {
+        let body = &s[1..s.len() - 1];
+        if body.chars().all(|c| c.is_ascii_lowercase()) {
+            return Some(Val::Text(body.to_string()));
+        }
+        return None;
+    }
+    let n: i64 = s.parse().ok()?;
+    if n.to_string() != s || n.abs() > 1_000_000_000 {
+        return None;
+    }
+    Some(Val::Int(n))
+}
+
+fn ident(s: &str) -> bool {
+    !s.is_empty() && s.chars().all(|c| c.is_ascii_lowercase() || c.is_ascii_digit()) && s.chars().next().unwrap().is_ascii_lowercase()
+}
+
+fn parse_table(spec: &str) -> Option<Table> {
+    let (name, rest) = spec.split_once('(')?;
+    let rest = rest.strip_suffix(')')?;
+    if !ident(name) {
+        return None;
+    }
+    let mut cols = Vec::new();
+    for c in rest.split(',') {
+        let (cn, ty) = c.split_once(':')?;
+        let mut ty = ty.to_string();
+        let mut not_null = false;
+        let mut unique = false;
+        loop {
+            if let Some(t) = ty.strip_suffix('!') {
+                not_null = true;
+                ty = t.to_string();
+            } else if let Some(t) = ty.strip_suffix('*') {
+                unique = true;
+                ty = t.to_string();
+            } else {
+                break;
+            }
+        }
+        if !ident(cn) || !matches!(ty.as_str(), "big" | "int" | "text") {
+            return None;
+        }
+        cols.push(Col { name: cn.to_string(), ty, not_null, unique });
+    }
+    if cols.is_empty() {
+        return None;
+    }
+    Some(Table { name: name.to_string(), cols })
+}
+
+fn parse_setup(s: &str) -> Option<Setup> {
+    let mut st = Setup { tables: vec![], rows: vec![], fresh: false, tmp: false };
+    for w in s.split_whitespace() {
+        if w == "fresh" {
+            st.fresh = true;
+        } else if w == "tmp" {
+            st.tmp = true;
+        } else if let Some(t) = w.strip_prefix("tab=") {
+            st.tables.push(parse_table(t)?);
+        } else if let Some(r) = w.strip_prefix("row=") {
+            let (t, vs) = r.split_once(':')?;
+            let vals: Option<Vec<Val>> = vs.split(',').map(parse_val).collect();
+            st.rows.push((t.to_string(), vals?));
+        } else {
+            return None;
+        }
+    }
+    Some(st)
+}
+
+fn parse_pred(ws: &[&str]) -> Option<Option<Pred>> {
+    match ws {
+        [] => Some(None),
+        ["where", col, op, val] => {
+            if !ident(col) || !matches!(*op, "eq" | "ne" | "lt" | "le" | "gt" | "ge") {
+                return None;
+            }
+            Some(Some(Pred { col: col.to_string(), op: op.to_string(), val: parse_val(val)? }))
+        }
+        _ => None,
+    }
+}
+
+fn parse_stmt(ws: &[&str]) -> Option<Stmt> {
+    match ws {
+        ["sel", t, rest @ ..] if ident(t) => Some(Stmt::Sel { table: t.to_string(), pred: parse_pred(rest)? }),
+        ["del", t, rest @ ..] if ident(t) => Some(Stmt::Del { table: t.to_string(), pred: parse_pred(rest)? }),
+        ["upd", t, col, how, val, rest @ ..] if ident(t) && ident(col) && (*how == "set" || *how == "add") => Some(Stmt::Upd {
+            table: t.to_string(),
+            col: col.to_string(),
+            add: *how == "add",
+            val: parse_val(val)?,
+            pred: parse_pred(rest)?,
+        }),
+        ["ins", t, rest @ ..] if ident(t) && !rest.is_empty() => {
+            let mut rows = Vec::new();
+            for r in rest.split(|w| *w == ",") {
+                if r.is_empty() {
+                    return None;
+                }
+                let vals: Option<Vec<Val>> = r.iter().map(|v| parse_val(v)).collect();
+                rows.push(vals?);
+            }
+            Some(Stmt::Ins { table: t.to_string(), rows })
+        }
+        _ => None,
+    }
+}
+
+fn sess_name(s: &str) -> bool {
+    s.len() >= 2 && s.starts_with('s') && s[1..].chars().all(|c| c.is_ascii_digit())
+}
+
+fn parse_op(s: &str) -> Option<Op> {
+    let ws: Vec<&str> = s.split_whitespace().collect();
+    match ws.as_slice() {
+        ["vac"] => Some(Op::Vac),
+        ["vacchk"] => Some(Op::VacChk),
+        ["reopen"] => Some(Op::Reopen),
+        ["db", "droptmp"] => Some(Op::DropTmp(None)),
+        [s, "droptmp"] if sess_name(s) => Some(Op::DropTmp(Some(s.to_string()))),
+        ["db", "batch", rest @ ..] => {
+            let mut stmts = Vec::new();
+            for part in rest.split(|w| *w == "&") {
+                stmts.push(parse_stmt(part)?);
+            }
+            Some(Op::Batch(stmts))
+        }
+        ["db", rest @ ..] => Some(Op::Auto(parse_stmt(rest)?)),
+        [s, "begin"] if sess_name(s) => Some(Op::Begin(s.to_string())),
+        [s, "commit"] if sess_name(s) => Some(Op::Commit(s.to_string())),
+        [s, "rollback"] if sess_name(s) => Some(Op::Rollback(s.to_string())),
+        [s, "drop"] if sess_name(s) => Some(Op::Drop(s.to_string())),
+        [s, rest @ ..] if sess_name(s) => Some(Op::Exec(s.to_string(), parse_stmt(rest)?)),
+        _ => None,
+    }
+}
+
+fn parse_case(line: &str) -> Option<(Setup, Vec<Op>)> {
+    let body = line.trim().strip_prefix("vac ")?;
+    let (setup, ops) = body.split_once('|')?;
+    let setup = parse_setup(setup)?;
+    let mut out = Vec::new();
+    let ops = ops.trim();
+    if !ops.is_empty() {
+        for o in ops.split(" ; ") {
+            out.push(parse_op(o)?);
+        }
+    }
+    Some((setup, out))
+}
+
+/// `cycles rows=<n> cycles=<c> reopen=<k> how=auto|sess|batch|rbk`
+struct Cycles {
+    rows: i64,
+    cycles: i64,
+    reopen: i64, // 0 = never, k = reopen after every k-th cycle
+    how: String,
+}
+
+fn parse_cycles(line: &str) -> Option<Cycles> {
+    let body = line.trim().strip_prefix("cycles ")?;
+    let mut c = Cycles { rows: 0, cycles: 0, reopen: 0, how: String::new() };
+    let num = |s: &str| -> Option<i64> {
+        let n: i64 = s.parse().ok()?;
+        if n.to_string() != s || n < 0 || n > 100_000 { None } else { Some(n) }
+    };
+    let ws: Vec<&str> = body.split_whitespace().collect();
+    if ws.len() != 4 {
+        return None;
+    }
+    c.rows = num(ws[0].strip_prefix("rows=")?)?;
+    c.cycles = num(ws[1].strip_prefix("cycles=")?)?;
+    c.reopen = num(ws[2].strip_prefix("reopen=")?)?;
+    c.how = ws[3].strip_prefix("how=")?.to_string();
+    if !matches!(c.how.as_str(), "auto" | "sess" | "batch" | "rbk") || c.rows < 1 || c.rows > 2000 || c.cycles < 1 || c.cycles > 400 {
+        return None;
+    }
+    Some(c)
+}
+
+// ------------------------------------------------------------------------------------------------ SQL text
+
+fn sql_val(v: &Val) -> String {
+    match v {
+        Val::Int(n) => n.to_string(),
+        Val::Null => "NULL".into(),
+        Val::Text(s) => format!("'{}'", s),
+    }
+}
+
+fn sql_pred(p: &Option<Pred>) -> String {
+    match p {
+        None => String::new(),
+        Some(p) => {
+            let op = match p.op.as_str() {
+                "eq" => "=",
+                "ne" => "<>",
+                "lt" => "<",
+                "le" => "<=",
+                "gt" => ">",
+                _ => ">=",
+            };
+            format!(" WHERE {} {} {}", p.col, op, sql_val(&p.val))
+        }
+    }
+}
+
+fn sql_of(s: &Stmt) -> String {
+    match s {
+        Stmt::Sel { table, pred } => format!("SELECT * FROM {}{}", table, sql_pred(pred)),
+        Stmt::Del { table, pred } => format!("DELETE FROM {}{}", table, sql_pred(pred)),
+        Stmt::Upd { table, col, add, val, pred } => {
+            if *add {
+                format!("UPDATE {} SET {} = {} + {}{}", table, col, col, sql_val(val), sql_pred(pred))
+            } else {
+                format!("UPDATE {} SET {} = {}{}", table, col, sql_val(val), sql_pred(pred))
+            }
+        }
+        Stmt::Ins { table, rows } => {
+            let rs: Vec<String> =
+                rows.iter().map(|r| format!("({})", r.iter().map(sql_val).collect::<Vec<_>>().join(", "))).collect();
+            format!("INSERT INTO {} VALUES {}", table, rs.join(", "))
+        }
+    }
+}
+
+fn sql_create(t: &Table) -> String {
+    let mut cols: Vec<String> = Vec::new();
+    let mut uniq: Vec<String> = Vec::new();
+    for c in &t.cols {
+        let ty = match c.ty.as_str() {
+            "big" => "BIGINT",
+            "int" => "INT",
+            _ => "TEXT",
+        };
+        cols.push(format!("{} {}{}", c.name, ty, if c.not_null { " NOT NULL" } else { "" }));
+        if c.unique {
+            uniq.push(format!("UNIQUE({})", c.name));
+        }
+    }
+    cols.extend(uniq);
+    format!("CREATE TABLE {} ({})", t.name, cols.join(", "))
+}
+
+// ------------------------------------------------------------------------------------------------ execution
+
+/// Error classes, read off the `Display` prefix (every error crosses the task runner as a string).
+fn err_class(msg: &str) -> &'static str {
+    let m = msg.to_ascii_lowercase();
+    if m.contains("conflict") {
+        "conflict"
+    } else if m.contains("constraint validation error") || m.contains("unique") || m.contains("not null") || m.contains("null constraint") {
+        "constraint"
+    } else if m.contains("not found") || m.contains("does not exist") || m.contains("notfound") {
+        "notfound"
+    } else if m.contains("type error") || m.contains("cast") || m.contains("type mismatch") || m.contains("datatype") {
+        "type"
+    } else {
+        "other"
+    }
+}
+
+fn show_dt(d: &DataType) -> String {
+    match d {
+        DataType::Null => "null".into(),
+        DataType::Int(v) => v.value().to_string(),
+        DataType::BigInt(v) => v.value().to_string(),
+        DataType::UInt(v) => v.value().to_string(),
+        DataType::BigUInt(v) => v.value().to_string(),
+        DataType::Blob(b) => format!("'{}'", String::from_utf8_lossy(b.data().unwrap_or(&[]))),
+        other => format!("?{:?}", other),
+    }
+}
+
+fn show_result(r: Result<QueryResult, String>, is_read: bool, diag: &mut Vec<String>) -> String {
+    match r {
+        Ok(QueryResult::Rows(rows)) => {
+            let mut out: Vec<String> =
+                rows.iterrows().map(|r| r.iter().map(show_dt).collect::<Vec<_>>().join(",")).collect();
+            out.sort();
+            format!("[{}]", out.join(";"))
+        }
+        Ok(QueryResult::RowsAffected(n)) => {
+            if is_read { format!("?affected{}", n) } else { format!("ok{}", n) }
+        }
+        Ok(QueryResult::Ddl(_)) => "ddl".into(),
+        Err(e) => {
+            diag.push(e.chars().filter(|c| *c != '\n').take(100).collect());
+            err_class(&e).to_string()
+        }
+    }
+}
+
+static COUNTER: AtomicU64 = AtomicU64::new(0);
+
+fn scratch() -> std::path::PathBuf {
+    let dir = std::env::temp_dir().join(format!("axv-vac-{}-{}", std::process::id(), COUNTER.fetch_add(1, Ordering::SeqCst)));
+    let _ = std::fs::remove_dir_all(&dir);
+    std::fs::create_dir_all(&dir).unwrap();
+    dir
+}
+
+fn run_case(line: &str) -> String {
+    if line.trim().starts_with("cycles ") {
+        let Some(c) = parse_cycles(line) else { return "bad-op".into() };
+        let dir = scratch();
+        let out = run_cycles(&dir, &c);
+        let _ = std::fs::remove_dir_all(&dir);
+        return out;
+    }
+    let Some((setup, ops)) = parse_case(line) else { return "bad-op".into() };
+    {
+        let mut names: Vec<&str> = setup.tables.iter().map(|t| t.name.as_str()).collect();
+        names.sort();
+        if names.windows(2).any(|w| w[0] == w[1]) || names.iter().any(|n| *n == "tmpzz" || *n == "warmupzz") {
+            return "bad-setup".into();
+        }
+    }
+    let dir = scratch();
+    let out = run_in(&dir, &setup, &ops);
+    let _ = std::fs::remove_dir_all(&dir);
+    out
+}
+
+fn select_all(db: &Database, setup: &Setup, diag: &mut Vec<String>) -> Vec<String> {
+    let mut names: Vec<&str> = setup.tables.iter().map(|t| t.name.as_str()).collect();
+    if setup.tmp {
+        names.push("tmpzz");
+    }
+    names
+        .iter()
+        .map(|t| {
+            let r = db.execute(&format!("SELECT * FROM {}", t)).map_err(|e| e.to_string());
+            format!("{}={}", t, show_result(r, true, diag))
+        })
+        .collect()
+}
+
+fn phys(db: &Database, path: &std::path::Path) -> String {
+    let pages = db.pager().read().total_allocated_pages();
+    let bytes = std::fs::metadata(path).map(|m| m.len()).unwrap_or(0);
+    format!("pages={} file={}", pages, bytes)
+}
+
+fn run_in(dir: &std::path::Path, setup: &Setup, ops: &[Op]) -> String {
+    let path = dir.join("db.axm");
+    let mut db = match Database::create(&path, DBConfig::default()) {
+        Ok(d) => d,
+        Err(e) => return format!("create-failed ## {}", e),
+    };
+    let mut diag: Vec<String> = Vec::new();
+    for t in &setup.tables {
+        if let Err(e) = db.execute(&sql_create(t)) {
+            return format!("bad-setup ## {}", e);
+        }
+    }
+    if !setup.fresh {
+        let _ = db.execute("CREATE TABLE warmupzz (k BIGINT)");
+    }
+    for (t, vals) in &setup.rows {
+        let s = Stmt::Ins { table: t.clone(), rows: vec![vals.clone()] };
+        if let Err(e) = db.execute(&sql_of(&s)) {
+            return format!("bad-setup ## {}", e);
+        }
+    }
+    if setup.tmp {
+        for q in ["CREATE TABLE tmpzz (k BIGINT)", "INSERT INTO tmpzz VALUES (1), (2)"] {
+            if let Err(e) = db.execute(q) {
+                return format!("bad-setup ## {}", e);
+            }
+        }
+    }
+    let mut sessions: BTreeMap<String, Session> = BTreeMap::new();
+    // sessions that were open when a VACUUM ran: VACUUM aborts their transactions, so every later operation on them
+    // must fail (`nosession`, whatever the error); an answer is a property failure
+    let mut killed: BTreeSet<String> = BTreeSet::new();
+    let mut outs: Vec<String> = Vec::new();
+    for op in ops {
+        let o = match op {
+            Op::Begin(s) => {
+                killed.remove(s);
+                sessions.remove(s);
+                match db.session() {
+                    Ok(x) => {
+                        sessions.insert(s.clone(), x);
+                        "ok".to_string()
+                    }
+                    Err(e) => err_class(&e.to_string()).to_string(),
+                }
+            }
+            Op::Commit(s) => match sessions.get_mut(s) {
+                None => "nosession".into(),
+                Some(x) => {
+                    let r = x.commit_transaction();
+                    let was_killed = killed.remove(s);
+                    let o = match r {
+                        Ok(()) => if was_killed { "PROPFAIL-killed-session-committed".to_string() } else { "ok".to_string() },
+                        Err(e) => {
+                            diag.push(e.to_string().chars().take(100).collect());
+                            if was_killed { "nosession".to_string() } else { err_class(&e.to_string()).to_string() }
+                        }
+                    };
+                    sessions.remove(s);
+                    o
+                }
+            },
+            Op::Rollback(s) => match sessions.get_mut(s) {
+                None => "nosession".into(),
+                Some(x) => {
+                    let r = x.abort_transaction();
+                    let was_killed = killed.remove(s);
+                    let o = match r {
+                        _ if was_killed => "nosession".to_string(),
+                        Ok(()) => "ok".to_string(),
+                        Err(e) => {
+                            diag.push(e.to_string().chars().take(100).collect());
+                            err_class(&e.to_string()).to_string()
+                        }
+                    };
+                    sessions.remove(s);
+                    o
+                }
+            },
+            Op::Drop(s) => match sessions.remove(s) {
+                None => "nosession".into(),
+                Some(x) => {
+                    drop(x);
+                    if killed.remove(s) { "nosession".into() } else { "ok".into() }
+                }
+            },
+            Op::Exec(s, st) => match sessions.get_mut(s) {
+                None => "nosession".into(),
+                Some(x) => {
+                    let r = x.execute(&sql_of(st)).map_err(|e| e.to_string());
+                    if killed.contains(s) {
+                        match r {
+                            Err(e) => {
+                                diag.push(e.chars().filter(|c| *c != '\n').take(100).collect());
+                                "nosession".to_string()
+                            }
+                            ok => format!("PROPFAIL-killed-session-answered({})", show_result(ok, matches!(st, Stmt::Sel { .. }), &mut diag)),
+                        }
+                    } else {
+                        show_result(r, matches!(st, Stmt::Sel { .. }), &mut diag)
+                    }
+                }
+            },
+            Op::Auto(st) => {
+                let r = db.execute(&sql_of(st)).map_err(|e| e.to_string());
+                show_result(r, matches!(st, Stmt::Sel { .. }), &mut diag)
+            }
+            Op::Batch(sts) => {
+                let sqls: Vec<String> = sts.iter().map(sql_of).collect();
+                let refs: Vec<&str> = sqls.iter().map(|s| s.as_str()).collect();
+                match db.execute_batch(&refs) {
+                    Ok(rs) => {
+                        let parts: Vec<String> = rs
+                            .into_iter()
+                            .zip(sts.iter())
+                            .map(|(r, st)| show_result(Ok(r), matches!(st, Stmt::Sel { .. }), &mut diag))
+                            .collect();
+                        format!("batch({})", parts.join(" "))
+                    }
+                    Err(e) => {
+                        diag.push(e.to_string().chars().take(100).collect());
+                        format!("batch-{}", err_class(&e.to_string()))
+                    }
+                }
+            }
+            Op::DropTmp(None) => {
+                let r = db.execute("DROP TABLE tmpzz").map_err(|e| e.to_string());
+                show_result(r, false, &mut diag)
+            }
+            Op::DropTmp(Some(s)) => match sessions.get_mut(s) {
+                None => "nosession".into(),
+                Some(x) => {
+                    let r = x.execute("DROP TABLE tmpzz").map_err(|e| e.to_string());
+                    if killed.contains(s) {
+                        match r {
+                            Err(_) => "nosession".to_string(),
+                            ok => format!("PROPFAIL-killed-session-answered({})", show_result(ok, false, &mut diag)),
+                        }
+                    } else {
+                        show_result(r, false, &mut diag)
+                    }
+                }
+            },
+            Op::Vac => match db.vacuum() {
+                Ok(_) => {
+                    killed.extend(sessions.keys().cloned());
+                    diag.push(phys(&db, &path));
+                    "vac".to_string()
+                }
+                Err(e) => {
+                    diag.push(e.to_string().chars().take(100).collect());
+                    format!("vac-{}", err_class(&e.to_string()))
+                }
+            },
+            Op::VacChk => {
+                let before = select_all(&db, setup, &mut diag);
+                match db.vacuum() {
+                    Ok(_) => {
+                        killed.extend(sessions.keys().cloned());
+                        let after = select_all(&db, setup, &mut diag);
+                        diag.push(phys(&db, &path));
+                        if before == after {
+                            "vac(same)".to_string()
+                        } else {
+                            format!("PROPFAIL-vac-changed({}->{})", before.join(","), after.join(","))
+                        }
+                    }
+                    Err(e) => {
+                        diag.push(e.to_string().chars().take(100).collect());
+                        format!("vac-{}", err_class(&e.to_string()))
+                    }
+                }
+            }
+            Op::Reopen => {
+                sessions.clear();
+                killed.clear();
+                drop(db);
+                match Database::open(&path, DBConfig::default()) {
+                    Ok(d) => {
+                        db = d;
+                        "reopen".to_string()
+                    }
+                    Err(e) => {
+                        outs.push("reopen-failed".into());
+                        return format!("{} ## {}", outs.join(" "), e);
+                    }
+                }
+            }
+        };
+        outs.push(o);
+    }
+    drop(sessions);
+    let fin = select_all(&db, setup, &mut diag);
+    drop(db);
+    let mut line = format!("{} | {}", outs.join(" "), fin.join(" "));
+    if !diag.is_empty() {
+        line.push_str(" ## ");
+        line.push_str(&diag.join(" // "));
+    }
+    line
+}
+
+/// Growth family: `rows` rows, then `cycles` times (UPDATE every row; VACUUM), sizes after every cycle.
+/// `how`: auto = autocommit UPDATE; sess = UPDATE in a session that commits; batch = execute_batch of two half updates;
+/// rbk = additionally a rolled-back UPDATE and a rolled-back INSERT + DELETE in every cycle.
+fn run_cycles(dir: &std::path::Path, c: &Cycles) -> String {
+    let path = dir.join("db.axm");
+    let mut db = match Database::create(&path, DBConfig::default()) {
+        Ok(d) => d,
+        Err(e) => return format!("create-failed ## {}", e),
+    };
+    if let Err(e) = db.execute("CREATE TABLE t (k BIGINT, v INT)") {
+        return format!("bad-setup ## {}", e);
+    }
+    let mut k = 1;
+    while k <= c.rows {
+        let hi = (k + 49).min(c.rows);
+        let vals: Vec<String> = (k..=hi).map(|i| format!("({}, {})", i, 0)).collect();
+        if let Err(e) = db.execute(&format!("INSERT INTO t VALUES {}", vals.join(", "))) {
+            return format!("bad-setup ## {}", e);
+        }
+        k = hi + 1;
+    }
+    let mut sizes: Vec<(u64, u64)> = Vec::new();
+    let mut diag: Vec<String> = Vec::new();
+    for i in 1..=c.cycles {
+        let r: Result<(), String> = (|| {
+            match c.how.as_str() {
+                "sess" => {
+                    let mut s = db.session().map_err(|e| e.to_string())?;
+                    s.execute("UPDATE t SET v = v + 1").map_err(|e| e.to_string())?;
+                    s.commit_transaction().map_err(|e| e.to_string())?;
+                }
+                "batch" => {
+                    let half = c.rows / 2;
+                    let a = format!("UPDATE t SET v = v + 1 WHERE k <= {}", half);
+                    let b = format!("UPDATE t SET v = v + 1 WHERE k > {}", half);
+                    db.execute_batch(&[a.as_str(), b.as_str()]).map_err(|e| e.to_string())?;
+                }
+                _ => {
+                    db.execute("UPDATE t SET v = v + 1").map_err(|e| e.to_string())?;
+                }
+            }
+            if c.how == "rbk" {
+                let mut s = db.session().map_err(|e| e.to_string())?;
+                s.execute(&format!("INSERT INTO t VALUES ({}, {})", 100_000 + i, 7)).map_err(|e| e.to_string())?;
+                s.abort_transaction().map_err(|e| e.to_string())?;
+            }
+            Ok(())
+        })();
+        if let Err(e) = r {
+            return format!("cycle-failed {} {} ## {}", i, err_class(&e), e.chars().take(120).collect::<String>());
+        }
+        if let Err(e) = db.vacuum() {
+            return format!("vac-failed {} {} ## {}", i, err_class(&e.to_string()), e);
+        }
+        let pages = db.pager().read().total_allocated_pages();
+        let bytes = std::fs::metadata(&path).map(|m| m.len()).unwrap_or(0);
+        sizes.push((pages, bytes));
+        if c.reopen > 0 && i % c.reopen == 0 {
+            drop(db);
+            db = match Database::open(&path, DBConfig::default()) {
+                Ok(d) => d,
+                Err(e) => return format!("reopen-failed {} ## {}", i, e),
+            };
+        }
+    }
+    // content: every row updated exactly `cycles` times
+    let r = db.execute("SELECT * FROM t").map_err(|e| e.to_string());
+    let content = match r {
+        Ok(QueryResult::Rows(rows)) => {
+            let mut n = 0i64;
+            let mut bad = 0i64;
+            for row in rows.iterrows() {
+                n += 1;
+                let v = row.iter().nth(1).map(show_dt).unwrap_or_default();
+                if v != c.cycles.to_string() {
+                    bad += 1;
+                }
+            }
+            format!("rows={} wrong={}", n, bad)
+        }
+        Ok(_) => "rows=?".to_string(),
+        Err(e) => {
+            diag.push(e.chars().take(100).collect());
+            format!("select-{}", err_class(&e))
+        }
+    };
+    // probe: the database is still usable
+    let probe = match db.execute("INSERT INTO t VALUES (999999, 1)").and_then(|_| db.execute("DELETE FROM t WHERE k = 999999")) {
+        Ok(QueryResult::RowsAffected(1)) => "probe=ok".to_string(),
+        Ok(_) => "probe=?".to_string(),
+        Err(e) => format!("probe-{}", err_class(&e.to_string())),
+    };
+    drop(db);
+    diag.push(format!("sizes={}", sizes.iter().map(|(p, b)| format!("{}/{}", p, b)).collect::<Vec<_>>().join(",")));
+    // bounded: from cycle 10 on nothing is larger than after cycle 3 plus a small constant (2 pages)
+    let verdict = if sizes.len() >= 10 {
+        let page = if sizes[2].0 > 0 { sizes[2].1 / sizes[2].0.max(1) } else { 4096 };
+        let (p3, b3) = sizes[2];
+        let worst = sizes[9..].iter().fold((0u64, 0u64), |a, x| (a.0.max(x.0), a.1.max(x.1)));
+        if worst.0 <= p3 + 2 && worst.1 <= b3 + 2 * page.max(4096) {
+            "bounded".to_string()
+        } else {
+            format!("PROPFAIL growth cycle3={}/{} max-after-cycle10={}/{}", p3, b3, worst.0, worst.1)
+        }
+    } else {
+        "bounded".to_string()
+    };
+    format!("{} {} {} ## {}", verdict, content, probe, diag.join(" // "))
+}
+
+// ------------------------------------------------------------------------------------------------ generation
+//
+// Discipline (keeps a case out of the findings of C03/C04, which are not this property's business):
+//   * initial rows have keys 1..n (value 10k); session i inserts keys 10i+j only and writes (del/upd) only rows it owns
+//     (its own inserts and the initial keys dealt to it): no two open transactions write the same row;
+//   * UPDATE only on table `t` (no unique index); statements that fail do so on their first row;
+//   * a deleted unique key is not inserted again;
+//   * DROP TABLE (of the side table `tmpzz`) only autocommit or in a session that commits right away; the family
+//     `rolled_back_drop` lifts this (DROP is not transactional: finding with region attribution).
+// Cases with an UPDATE that is rolled back, or read by a transaction older than it, carry `kf:update`
+// (updateKeepsInserterXmin, finding of C03/C04 with exact attribution).
+
+const T_PLAIN: &str = "tab=t(k:big,v:int)";
+const T_CONS: &str = "tab=u(k:big*,v:int!)";
+
+fn setup_line(tables: &[&str], n_init: i64, fresh: bool, tmp: bool) -> String {
+    let mut s = String::new();
+    for t in tables {
+        if !s.is_empty() {
+            s.push(' ');
+        }
+        s.push_str(if *t == "t" { T_PLAIN } else { T_CONS });
+    }
+    for t in tables {
+        for k in 1..=n_init {
+            s.push_str(&format!(" row={}:{},{}", t, k, 10 * k));
+        }
+    }
+    if fresh {
+        s.push_str(" fresh");
+    }
+    if tmp {
+        s.push_str(" tmp");
+    }
+    s
+}
+
+fn gen_read(rng: &mut Rng, t: &str, n_init: i64) -> String {
+    match rng.below(6) {
+        0 | 1 | 2 => format!("sel {}", t),
+        3 => format!("sel {} where k eq {}", t, rng.range(1, n_init.max(1))),
+        4 => format!("sel {} where v {} {}", t, rng.pick(&["ge", "lt", "ne", "gt", "le"]), 10 * rng.range(1, 3)),
+        _ => format!("sel {} where k {} {}", t, rng.pick(&["lt", "ge", "ne"]), rng.range(1, 12)),
+    }
+}
+
+/// one write statement on rows the writer owns; `base` numbers its inserted keys
+fn gen_write(rng: &mut Rng, t: &str, upd_ok: bool, base: i64, ctr: &mut i64, mine: &mut Vec<i64>) -> String {
+    let w = rng.below(10);
+    if w < 4 || mine.is_empty() {
+        let nrows = if rng.chance(1, 4) { 2 } else { 1 };
+        let mut parts = Vec::new();
+        for _ in 0..nrows {
+            let k = base + *ctr;
+            *ctr += 1;
+            mine.push(k);
+            parts.push(format!("{} {}", k, 100 + rng.range(0, 99)));
+        }
+        return format!("ins {} {}", t, parts.join(" , "));
+    }
+    let k = *rng.pick(mine);
+    if upd_ok && t == "t" && rng.chance(1, 2) {
+        if rng.chance(1, 2) {
+            format!("upd {} v add {} where k eq {}", t, rng.range(1, 5), k)
+        } else {
+            format!("upd {} v set {} where k eq {}", t, 1000 + rng.range(0, 99), k)
+        }
+    } else {
+        mine.retain(|x| *x != k);
+        format!("del {} where k eq {}", t, k)
+    }
+}
+
+fn gen_end(rng: &mut Rng) -> &'static str {
+    match rng.below(10) {
+        0..=4 => "commit",
+        5..=7 => "rollback",
+        8 => "drop",
+        _ => "", // left open
+    }
+}
+
+fn random_interleaving(rng: &mut Rng, progs: &[Vec<String>]) -> Vec<String> {
+    let mut pos = vec![0usize; progs.len()];
+    let mut out = Vec::new();
+    loop {
+        let live: Vec<usize> = (0..progs.len()).filter(|i| pos[*i] < progs[*i].len()).collect();
+        if live.is_empty() {
+            return out;
+        }
+        let total: usize = live.iter().map(|i| progs[*i].len() - pos[*i]).sum();
+        let mut x = rng.below(total as u64) as usize;
+        let mut pick = live[0];
+        for i in &live {
+            let r = progs[*i].len() - pos[*i];
+            if x < r {
+                pick = *i;
+                break;
+            }
+            x -= r;
+        }
+        out.push(progs[pick][pos[pick]].clone());
+        pos[pick] += 1;
+    }
+}
+
+fn vac_op(rng: &mut Rng) -> &'static str {
+    if rng.chance(3, 4) { "vacchk" } else { "vac" }
+}
+
+/// what the history looks like to this property (syntactic)
+fn analyse(line: &str, extra: &[&str]) -> Vec<String> {
+    let mut tags: Vec<String> = Vec::new();
+    let mut add = |t: &str| {
+        if !tags.iter().any(|x| x == t) {
+            tags.push(t.to_string());
+        }
+    };
+    for e in extra {
+        add(e);
+    }
+    let Some((setup, ops)) = parse_case(line) else {
+        add("malformed");
+        return tags;
+    };
+    if setup.fresh {
+        add("fresh_db");
+    }
+    if setup.tables.len() > 1 {
+        add("two_tables");
+    }
+    // per open session: has it written / updated?   after the walk: which kinds of garbage existed before some vacuum
+    let mut open: BTreeMap<String, (bool, bool, bool)> = BTreeMap::new(); // name -> (wrote, updated, deleted)
+    let mut garbage = false; // rolled-back write or superseded version so far
+    let (mut nvac, mut nreopen) = (0, 0);
+    let mut killed: BTreeSet<String> = BTreeSet::new();
+    let mut upd_risky = false;
+    let mut older_open_than_update = false;
+    let mut nt = false;
+    for op in &ops {
+        match op {
+            Op::Begin(s) => {
+                if let Some((w, _, _)) = open.remove(s) {
+                    if w {
+                        garbage = true;
+                        add("rolled_back_write");
+                    }
+                }
+                killed.remove(s);
+                open.insert(s.clone(), (false, false, false));
+            }
+            Op::Commit(s) => {
+                if killed.contains(s) {
+                    add("killed_commit");
+                    killed.remove(s);
+                } else if let Some((_, u, d)) = open.remove(s) {
+                    add("commit");
+                    if u || d {
+                        garbage = true;
+                        add("superseded_version");
+                    }
+                    if u && !open.is_empty() {
+                        older_open_than_update = true;
+                    }
+                }
+            }
+            Op::Rollback(s) | Op::Drop(s) => {
+                if killed.remove(s) {
+                    add("killed_end");
+                } else if let Some((w, u, d)) = open.remove(s) {
+                    add(if matches!(op, Op::Rollback(_)) { "rollback" } else { "session_drop" });
+                    if w {
+                        garbage = true;
+                        add("rolled_back_write");
+                    }
+                    if d {
+                        add("rolled_back_delete");
+                    }
+                    if u {
+                        add("rolled_back_update");
+                        upd_risky = true;
+                    }
+                }
+            }
+            Op::Exec(s, st) => {
+                if killed.contains(s) {
+                    add("killed_stmt");
+                } else if let Some(e) = open.get_mut(s) {
+                    match st {
+                        Stmt::Sel { .. } => add("sel"),
+                        Stmt::Ins { rows, .. } => {
+                            e.0 = true;
+                            add("ins");
+                            if rows.len() > 1 {
+                                add("multi_row_insert");
+                            }
+                        }
+                        Stmt::Upd { .. } => {
+                            e.0 = true;
+                            e.1 = true;
+                            add("update");
+                        }
+                        Stmt::Del { .. } => {
+                            e.0 = true;
+                            e.2 = true;
+                            add("del");
+                        }
+                    }
+                }
+            }
+            Op::Auto(st) => {
+                add("autocommit");
+                match st {
+                    Stmt::Sel { .. } => add("sel"),
+                    Stmt::Ins { .. } => add("ins"),
+                    Stmt::Upd { .. } => {
+                        add("update");
+                        garbage = true;
+                        add("superseded_version");
+                        if !open.is_empty() {
+                            older_open_than_update = true;
+                        }
+                    }
+                    Stmt::Del { .. } => {
+                        add("del");
+                        garbage = true;
+                        add("superseded_version");
+                    }
+                }
+            }
+            Op::Batch(sts) => {
+                add("batch");
+                for st in sts {
+                    match st {
+                        Stmt::Upd { .. } => {
+                            add("update");
+                            garbage = true;
+                            if !open.is_empty() {
+                                older_open_than_update = true;
+                            }
+                        }
+                        Stmt::Del { .. } => {
+                            garbage = true;
+                        }
+                        _ => {}
+                    }
+                }
+            }
+            Op::Vac | Op::VacChk => {
+                nvac += 1;
+                add(if matches!(op, Op::Vac) { "vac_plain" } else { "vac_checked" });
+                if open.values().any(|(w, _, _)| *w) {
+                    garbage = true;
+                    add("open_writer_at_vacuum");
+                }
+                if open.values().any(|(_, u, _)| *u) {
+                    upd_risky = true;
+                }
+                if open.values().any(|(_, _, d)| *d) {
+                    add("open_deleter_at_vacuum");
+                }
+                if !open.is_empty() {
+                    add("open_across_vacuum");
+                }
+                for k in open.keys() {
+                    killed.insert(k.clone());
+                }
+                open.clear();
+                if garbage {
+                    nt = true;
+                }
+            }
+            Op::Reopen => {
+                nreopen += 1;
+                if open.values().any(|(w, _, _)| *w) {
+                    garbage = true;
+                    add("rolled_back_write");
+                }
+                if open.values().any(|(_, u, _)| *u) {
+                    upd_risky = true;
+                }
+                open.clear();
+                killed.clear();
+            }
+            Op::DropTmp(_) => add("drop_table"),
+        }
+    }
+    add(&format!("vac{}", nvac.min(3)));
+    if nreopen > 0 {
+        add("reopen");
+        if nvac > 0 {
+            add("vacuum_and_reopen");
+        }
+    }
+    if nt {
+        add("nt");
+    }
+    // known-finding features
+    let rbd = extra.iter().any(|e| *e == "rolled_back_drop");
+    if rbd {
+        add("kf:rolled_back_drop");
+    } else if upd_risky || older_open_than_update {
+        add("kf:update");
+    } else {
+        add("clean");
+    }
+    tags
+}
+
+fn mk(setup: &str, ops: &[String], extra: &[&str]) -> Case {
+    let ops: Vec<&String> = ops.iter().filter(|o| !o.is_empty()).collect();
+    let line = format!("vac {} | {}", setup, ops.iter().map(|s| s.as_str()).collect::<Vec<_>>().join(" ; "));
+    let tags = analyse(&line, extra);
+    Case { line, tags }
+}
+
+/// reads and probe writes after the last vacuum: fresh autocommit statements, a session opened afterwards (reading twice,
+/// writing, committing or rolling back), and "the database remains usable" probes
+fn tail_ops(rng: &mut Rng, t: &str, n_init: i64) -> Vec<String> {
+    let mut ops = vec![format!("db {}", gen_read(rng, t, n_init))];
+    if rng.chance(3, 4) {
+        ops.push("s9 begin".into());
+        ops.push(format!("s9 sel {}", t));
+        let k = 90 + rng.range(0, 5);
+        ops.push(format!("s9 ins {} {} {}", t, k, 900));
+        if rng.chance(1, 2) {
+            ops.push(format!("db ins {} {} {}", t, 80 + rng.range(0, 5), 800));
+        }
+        ops.push(format!("s9 sel {}", t));
+        if rng.chance(1, 2) {
+            ops.push(format!("s9 del {} where k eq {}", t, k));
+        }
+        ops.push(format!("s9 {}", if rng.chance(2, 3) { "commit" } else { "rollback" }));
+    }
+    if rng.chance(1, 2) {
+        ops.push(format!("db ins {} 70 700", t));
+        if t == "t" && rng.chance(1, 2) {
+            ops.push("db upd t v add 1 where k eq 70".to_string());
+        }
+        ops.push(format!("db sel {} where k eq 70", t));
+        ops.push(format!("db del {} where k eq 70", t));
+    }
+    if rng.chance(1, 3) {
+        ops.push(vac_op(rng).to_string());
+    }
+    ops.push(format!("db sel {}", t));
+    ops
+}
+
+/// random multi-session history with vacuums / reopens dropped in at random places
+fn gen_random(rng: &mut Rng, out: &mut Vec<Case>) {
+    let with_upd = rng.chance(1, 4);
+    let t = if !with_upd && rng.chance(1, 3) { "u" } else { "t" };
+    let n_init = rng.range(0, 3);
+    let nsess = rng.range(1, 3) as usize;
+    // deal the initial keys
+    let mut owned: Vec<Vec<i64>> = vec![Vec::new(); nsess + 1]; // last = autocommit statements
+    for k in 1..=n_init {
+        let who = rng.below(nsess as u64 + 2) as usize;
+        if who <= nsess {
+            owned[who].push(k);
+        }
+    }
+    let mut progs: Vec<Vec<String>> = Vec::new();
+    for si in 1..=nsess {
+        let mut p = vec![format!("s{} begin", si)];
+        let mut ctr = 1;
+        let mut mine = owned[si - 1].clone();
+        for _ in 0..rng.range(1, 3) {
+            if rng.chance(1, 3) {
+                p.push(format!("s{} {}", si, gen_read(rng, t, n_init)));
+            } else {
+                p.push(format!("s{} {}", si, gen_write(rng, t, with_upd, 10 * si as i64, &mut ctr, &mut mine)));
+            }
+        }
+        let e = gen_end(rng);
+        if !e.is_empty() {
+            p.push(format!("s{} {}", si, e));
+        }
+        progs.push(p);
+    }
+    // autocommit program
+    {
+        let mut p = Vec::new();
+        let mut ctr = 1;
+        let mut mine = owned[nsess].clone();
+        for _ in 0..rng.range(0, 3) {
+            if rng.chance(1, 4) {
+                p.push(format!("db {}", gen_read(rng, t, n_init)));
+            } else if rng.chance(1, 6) {
+                let a = gen_write(rng, t, with_upd, 50, &mut ctr, &mut mine);
+                let b = gen_write(rng, t, with_upd, 50, &mut ctr, &mut mine);
+                p.push(format!("db batch {} & {}", a, b));
+            } else {
+                p.push(format!("db {}", gen_write(rng, t, with_upd, 50, &mut ctr, &mut mine)));
+            }
+        }
+        progs.push(p);
+    }
+    // maintenance program: vacuums and reopens
+    {
+        let mut p = Vec::new();
+        for _ in 0..rng.range(1, 3) {
+            if rng.chance(1, 5) {
+                p.push("reopen".to_string());
+            } else {
+                p.push(vac_op(rng).to_string());
+            }
+        }
+        progs.push(p);
+    }
+    let mut ops = random_interleaving(rng, &progs);
+    if rng.chance(2, 3) {
+        ops.push(vac_op(rng).to_string());
+    }
+    ops.extend(tail_ops(rng, t, n_init));
+    let fresh = n_init == 0 && rng.chance(1, 2);
+    out.push(mk(&setup_line(&[t], n_init, fresh, false), &ops, &["random"]));
+}
+
+/// scenarios aimed at one vacuum decision each
+fn gen_targeted(rng: &mut Rng, out: &mut Vec<Case>) {
+    let n_init = rng.range(2, 4);
+    let k = rng.range(1, n_init);
+    let k2 = if k == 1 { 2 } else { k - 1 };
+    let v = vac_op(rng);
+    let maybe_reopen = |rng: &mut Rng| if rng.chance(1, 4) { "reopen".to_string() } else { String::new() };
+    let end_rb = |rng: &mut Rng| if rng.chance(2, 3) { "rollback" } else { "drop" };
+    let shape = rng.below(16);
+    let mut ops: Vec<String> = Vec::new();
+    let mut table = "t";
+    let mut extra: Vec<&str> = vec!["targeted"];
+    let mut fresh = false;
+    let mut tmp = false;
+    let mut tables: Vec<&str> = vec!["t"];
+    match shape {
+        0 | 1 => {
+            // DELETE, ROLLBACK, VACUUM (the row must survive), then the row is deleted for real
+            table = if rng.chance(1, 3) { "u" } else { "t" };
+            tables = vec![table];
+            ops.push("s1 begin".into());
+            ops.push(format!("s1 del {} where k eq {}", table, k));
+            if rng.chance(1, 2) {
+                ops.push(format!("s1 sel {}", table));
+            }
+            ops.push(format!("s1 {}", end_rb(rng)));
+            ops.push(maybe_reopen(rng));
+            ops.push(v.into());
+            ops.push(maybe_reopen(rng));
+            ops.push(format!("db sel {} where k eq {}", table, k));
+            ops.push(format!("db del {} where k eq {}", table, k));
+            ops.push(vac_op(rng).into());
+            extra.push("t_rolled_back_delete");
+        }
+        2 => {
+            // INSERT, ROLLBACK, VACUUM; the same key is then inserted and committed
+            table = if rng.chance(1, 3) { "u" } else { "t" };
+            tables = vec![table];
+            ops.push("s1 begin".into());
+            ops.push(format!("s1 ins {} 11 110 , 12 120", table));
+            ops.push(format!("s1 {}", end_rb(rng)));
+            ops.push(maybe_reopen(rng));
+            ops.push(v.into());
+            ops.push(format!("db ins {} 11 111", table));
+            ops.push(vac_op(rng).into());
+            extra.push("t_rolled_back_insert");
+        }
+        3 => {
+            // committed DELETE, VACUUM (space is freed), the key comes back
+            ops.push(format!("db del t where k eq {}", k));
+            ops.push(v.into());
+            ops.push(maybe_reopen(rng));
+            ops.push(format!("db ins t {} 555", k));
+            ops.push(vac_op(rng).into());
+            extra.push("t_committed_delete");
+        }
+        4 | 5 => {
+            // superseded versions: several committed updates of one row, vacuum in between
+            for _ in 0..rng.range(1, 4) {
+                ops.push(format!("db upd t v add {} where k eq {}", rng.range(1, 9), k));
+            }
+            ops.push(v.into());
+            ops.push(maybe_reopen(rng));
+            ops.push("db upd t v add 1".into());
+            if rng.chance(1, 2) {
+                ops.push("db batch upd t v add 1 & upd t v add 1".into());
+            }
+            ops.push(vac_op(rng).into());
+            extra.push("t_superseded");
+        }
+        6 => {
+            // rolled-back UPDATE (kf:update: the update is not undone by ROLLBACK; VACUUM must not change what is read)
+            ops.push("s1 begin".into());
+            ops.push(format!("s1 upd t v set 77 where k eq {}", k));
+            ops.push(format!("s1 {}", end_rb(rng)));
+            ops.push("db sel t".into());
+            ops.push(v.into());
+            extra.push("t_rolled_back_update");
+        }
+        7 | 8 => {
+            // a transaction older than the horizon is open (with writes) when VACUUM runs: it is aborted, its row versions
+            // go, its delete marks must not take the row with them, its later statements fail
+            let w = match rng.below(3) {
+                0 => format!("s1 del t where k eq {}", k),
+                1 => "s1 ins t 11 110".to_string(),
+                _ => format!("s1 ins t 11 110 ; s1 del t where k eq {}", k),
+            };
+            ops.push("s1 begin".into());
+            ops.push(w);
+            if rng.chance(2, 3) {
+                ops.push("db ins t 21 210".into()); // a younger transaction commits: s1's id is below the horizon
+            }
+            ops.push(v.into());
+            ops.push("db sel t".into());
+            ops.push("s1 sel t".into());
+            ops.push("s1 ins t 12 120".into());
+            ops.push(format!("s1 del t where k eq {}", k2));
+            ops.push("db sel t".into());
+            ops.push(format!("s1 {}", *rng.pick(&["commit", "rollback", "drop"])));
+            ops.push("db sel t".into());
+            if rng.chance(1, 2) {
+                ops.push("s1 begin".into());
+                ops.push("s1 sel t".into());
+                ops.push("s1 ins t 13 130".into());
+                ops.push("s1 commit".into());
+            }
+            ops.push(maybe_reopen(rng));
+            extra.push("t_open_across");
+        }
+        9 => {
+            // a reader is open across the vacuum while rows it sees are deleted and vacuumed away
+            ops.push("s1 begin".into());
+            ops.push("s1 sel t".into());
+            ops.push(format!("db del t where k eq {}", k));
+            ops.push("s1 sel t".into());
+            ops.push(v.into());
+            ops.push("s1 sel t".into());
+            ops.push("s1 commit".into());
+            extra.push("t_reader_across");
+        }
+        10 => {
+            // vacuum as the very first thing, twice in a row, on an empty table
+            fresh = rng.chance(1, 2);
+            ops.push(v.into());
+            ops.push(vac_op(rng).into());
+            ops.push("db ins t 31 310".into());
+            ops.push(vac_op(rng).into());
+            ops.push("db del t".into());
+            ops.push(vac_op(rng).into());
+            ops.push(vac_op(rng).into());
+            extra.push("t_empty_twice");
+        }
+        11 => {
+            // two tables, garbage in both
+            tables = vec!["t", "u"];
+            ops.push("s1 begin".into());
+            ops.push(format!("s1 del t where k eq {}", k));
+            ops.push(format!("s1 del u where k eq {}", k2));
+            ops.push("s1 ins u 11 110".into());
+            ops.push(format!("s1 {}", end_rb(rng)));
+            ops.push(format!("db del u where k eq {}", k));
+            ops.push(v.into());
+            ops.push("db sel u".into());
+            extra.push("t_two_tables");
+        }
+        12 => {
+            // DROP TABLE committed (autocommit or a session that commits at once), VACUUM, reopen
+            tmp = true;
+            if rng.chance(1, 2) {
+                ops.push("db droptmp".into());
+            } else {
+                ops.push("s1 begin".into());
+                ops.push("s1 droptmp".into());
+                ops.push("s1 commit".into());
+            }
+            ops.push(v.into());
+            ops.push(maybe_reopen(rng));
+            ops.push("db droptmp".into());
+            ops.push(vac_op(rng).into());
+            extra.push("t_dropped_table");
+        }
+        13 => {
+            // DROP TABLE rolled back (or cut off by the vacuum): DROP is not transactional — region finding
+            tmp = true;
+            ops.push("s1 begin".into());
+            ops.push("s1 droptmp".into());
+            if rng.chance(1, 2) {
+                ops.push(format!("s1 {}", end_rb(rng)));
+            }
+            ops.push(v.into());
+            ops.push("db sel t".into());
+            extra.push("rolled_back_drop");
+        }
+        14 => {
+            // many rolled-back and committed transactions, then one vacuum, then reopen, then another
+            for i in 0..rng.range(3, 8) {
+                ops.push("s1 begin".into());
+                ops.push(format!("s1 ins t {} {}", 100 + i, i));
+                if rng.chance(1, 2) {
+                    ops.push(format!("s1 del t where k eq {}", k));
+                }
+                ops.push(format!("s1 {}", if rng.chance(1, 2) { "commit" } else { "rollback" }));
+                if i == 2 {
+                    ops.push(format!("db ins t {} 5", k));
+                }
+            }
+            ops.push(v.into());
+            ops.push("reopen".into());
+            ops.push(vac_op(rng).into());
+            extra.push("t_many_txns");
+        }
+        _ => {
+            // failing statements (first-row failures) before the vacuum: their transactions are aborted ones too
+            table = "u";
+            tables = vec!["u"];
+            ops.push(format!("db ins u {} 99", k)); // duplicate key
+            ops.push("db ins u 77 null".into()); // NOT NULL
+            ops.push("db batch ins u 41 410 & ins u 41 411".into()); // failing batch: the first insert is rolled back
+            ops.push("s1 begin".into());
+            ops.push("s1 ins u 42 420".into());
+            ops.push(format!("s1 ins u {} 1", k));
+            ops.push("s1 commit".into());
+            ops.push(v.into());
+            extra.push("t_failed_stmts");
+        }
+    }
+    ops.extend(tail_ops(rng, table, n_init));
+    out.push(mk(&setup_line(&tables, n_init, fresh, tmp), &ops, &extra));
+}
+
+fn gen_cycles(rng: &mut Rng, tier: Tier, out: &mut Vec<Case>) {
+    let quick = tier == Tier::Quick;
+    let rows = *rng.pick(&[1i64, 7, 50, 51, 120, 300]);
+    let cycles = if quick { rng.range(12, 20) } else { rng.range(12, 60) };
+    let reopen = *rng.pick(&[0i64, 0, 1, 5, 7]);
+    let how = *rng.pick(&["auto", "sess", "batch", "rbk"]);
+    let line = format!("cycles rows={} cycles={} reopen={} how={}", rows, cycles, reopen, how);
+    let mut tags = vec!["cycles".to_string(), "nt".to_string(), format!("how_{}", how), "clean".to_string()];
+    if reopen > 0 {
+        tags.push("cycles_reopen".into());
+    }
+    tags.push(format!("rows_{}", if rows <= 7 { "small" } else if rows <= 51 { "one_or_two_pages" } else { "many_pages" }));
+    out.push(Case { line, tags });
+}
+
+impl Engine for VacuumEngine {
+    fn gen_cases(&self, rng: &mut Rng, tier: Tier) -> Vec<Case> {
+        let quick = tier == Tier::Quick;
+        let mut out = Vec::new();
+        for _ in 0..(if quick { 900 } else { 9000 }) {
+            gen_random(rng, &mut out);
+        }
+        for _ in 0..(if quick { 800 } else { 8000 }) {
+            gen_targeted(rng, &mut out);
+        }
+        for _ in 0..(if quick { 24 } else { 200 }) {
+            gen_cycles(rng, tier, &mut out);
+        }
+        // more than 255 updates of one row: the u8 version counter of the tuple wraps (it used to overflow: 02a6d5d)
+        out.push(Case {
+            line: format!("cycles rows={} cycles=260 reopen=0 how=auto", rng.range(1, 3)),
+            tags: vec!["cycles".into(), "nt".into(), "cycles_over_255".into(), "clean".into()],
+        });
+        out
+    }
+    fn exec(&mut self, line: &str) -> String {
+        run_case(line)
+    }
+    fn timeout_ms(&self) -> u64 {
+        180_000
     }
 }
 
